@@ -59,6 +59,10 @@ def run(tier, seed):
         ec.eng_persist(bd, tr, mode="replay", **{"in": wc})
         traces.append({"trace": tr, "cases": wc, "origin": f"EngineObsGen(restarts) {regime}"})
 
+    # a callee with 1100 callers: after a clean restart its callers set is rebuilt from the store
+    # through the spill path of the key-of-set cache; every caller must still follow an input change
+    wide = ec.wide_fanin_leg(PID, bd, wd, verdict, "eng_persist", fan=(1100,) if quick else (1024, 1025, 1100, 2100),
+                             restart=True, extra={"cap": 64, "grouping": 0, "regime": "hold", "crash": False, "cutseed": seed})
     summary = ec.collect(PID, traces, verdict, known, "kv")
     baseline_same = ec.finish_candidates(PID, verdict, summary, wd, "eng_persist", [])
     rc = verdict.finish()
@@ -75,6 +79,7 @@ def run(tier, seed):
         "events_validated": summary["events"],
         "restarts": summary["stats"].get("restarts", 0),
         "checked": summary["stats"],
+        "wide_fan_in_with_restarts": wide,
         "regimes": ["hold (everything durable at shutdown)", "settle (pipeline idle after each action)"],
         "cache_capacities": [1, 2, 8, 64],
         "groupings": ["one", "up to 3", "all", "seeded 1..4"],
